@@ -664,3 +664,59 @@ def rule_interlace_shortcut(ctx):
             ctx.violated("ILSHORT", key, f.where(line), "the guard `%s` of the plain copy can hold although `%s != %s`: a buffer that needs its components regrouped is returned unconverted" % (render(g[1])[:80], ils[0], ils[1]))
     ctx.floor("ILSHORT", 1, n, "(plain-copy shortcuts in GRIil_convert)")
     return n
+
+
+def rule_axis_guards_independent(ctx, funcs=("GRwriteimage", "GRreadimage")):
+    """AXISGUARD (C09): sub-sampling is decided per axis: a stride greater than 1 along X means gaps inside a row, along Y it means
+    whole rows between the rows that are transferred.  In GRwriteimage/GRreadimage a decision taken on one axis' stride
+    (`stride[YDIM] > 1` -> rows must be filled) must not sit inside the arm of a test on the *other* axis' stride: nested there, a
+    write that sub-samples only in Y never fills the skipped rows of a new image.  Instances: every test of `a[XDIM]` / `a[YDIM]`
+    against a constant, checked against the tests that enclose it."""
+    from .codec import ast_walk
+    from .facts import kind, strip, walk, render, int_name, is_int, base_var
+    prog = ctx.prog
+    n = 0
+
+    def axis_tests(c):
+        out = set()
+        for x in walk(c, True):
+            if x[0] == "bin" and x[1] in (">", ">=", "<", "<=", "==", "!="):
+                for a, o in ((x[2], x[3]), (x[3], x[2])):
+                    a = strip(a)
+                    if kind(a) == "idx" and int_name(a[2]) in ("XDIM", "YDIM") and is_int(o):
+                        out.add((base_var(a), int_name(a[2])))
+        return out
+
+    for fn in funcs:
+        f = prog.func(fn)
+        if f is None or not f.raw.get("ast"):
+            ctx.unrecognised("AXISGUARD", "AXISGUARD:%s" % fn, "-", "%s not found" % fn)
+            continue
+        k = [0]
+
+        def vis(nd, st):
+            nonlocal n
+            if nd[0] != "if":
+                return True
+            mine = axis_tests(nd[1])
+            if len({ax for _a, ax in mine}) != 1:
+                return True
+            arr, ax = next(iter(mine))
+            k[0] += 1
+            n += 1
+            key = "AXISGUARD:%s#%d" % (fn, k[0])
+            line = nd[-3] if isinstance(nd[-3], int) else f.line
+            chain = st + [nd]
+            for i, s_ in enumerate(st):
+                if s_[0] == "if" and chain[i + 1] is s_[2]:
+                    outer = axis_tests(s_[1])
+                    if any(a2 == arr and ax2 != ax for a2, ax2 in outer) and not any(a2 == arr and ax2 == ax for a2, ax2 in outer):
+                        ctx.violated("AXISGUARD", key, f.where(line), "the decision `%s` on the %s axis is taken only inside the arm of `%s`, a test on the other axis: a transfer that sub-samples along %s alone never reaches it" %
+                                     (render(nd[1])[:50], ax, render(s_[1])[:50], ax))
+                        return True
+            ctx.holds("AXISGUARD", key, f.where(line), "`%s` is not nested under a test of the other axis" % render(nd[1])[:60], nontrivial=True)
+            return True
+
+        ast_walk(f.raw["ast"], vis)
+    ctx.floor("AXISGUARD", 3, n, "(per-axis tests in GRwriteimage/GRreadimage)")
+    return n
